@@ -35,6 +35,55 @@ void harness(void) {
   OSMT_REACH("return");
 }
 '''
+H_INV = '''/* an ARBITRARY well-formed state: any bound trace of at most TR entries and any non-decreasing list of limits; the per-variable stacks are, by the
+   representation invariant, the projections of the trace.  One arbitrary operation must re-establish the invariant and act on the trace as the reference model says. */
+#define TR 4
+static void project(t_u32 *trace, int n) {      /* reference stacks := projection of trace[0..n) */
+  for (int v = 0; v < NVAR; v++) for (int k = 0; k < 2; k++) g_sz[v][k] = 0;
+  for (int i = 0; i < TR + 1; i++) if (i < n) { int v = (int)h_b[trace[i]].var.x, k = h_b[trace[i]].type == 1 ? 1 : 0; g_st[v][k][g_sz[v][k]] = trace[i]; g_sz[v][k]++; } }
+static void check_state(t_u32 *trace, int n, const char *unused) {
+  __CPROVER_assert(h_m.bound_trace.sz == n, "the trace holds exactly the bounds asserted and not retracted");
+  for (int i = 0; i < TR + 1; i++) if (i < n) __CPROVER_assert(h_m.bound_trace.data[i].x == trace[i], "the trace keeps the assertion order");
+  project(trace, n);
+  for (int v = 0; v < NVAR; v++) for (int k = 0; k < 2; k++) {
+    struct vec_LABoundRef *s = k == 0 ? &h_lbs[v] : &h_ubs[v];
+    __CPROVER_assert(s->sz == g_sz[v][k], "representation invariant: each stack is the projection of the trace (size)");
+    for (int i = 0; i < TR + 1; i++) if (i < g_sz[v][k]) __CPROVER_assert(s->data[i].x == g_st[v][k][i], "representation invariant: each stack is the projection of the trace (content)"); } }
+void harness(void) {
+  for (int b = 0; b < NB; b++) { h_b[b].type = nondet_bool() ? 1 : 0; h_b[b].var.x = nondet_bool() ? 1 : 0; }
+  h_m.bs = (struct LABoundStore *)0;
+  /* arbitrary trace and limits */
+  t_u32 trace[TR + 1]; int n = nondet_uchar() % (TR + 1);
+  for (int i = 0; i < TR + 1; i++) trace[i] = nondet_uchar() % NB;
+  int nl = 1 + nondet_uchar() % 3; t_int lim[3]; lim[0] = 0;
+  for (int i = 1; i < 3; i++) { lim[i] = nondet_uchar() % (TR + 1); __CPROVER_assume(lim[i] >= lim[i - 1]); }
+  for (int i = 0; i < 3; i++) if (i < nl) __CPROVER_assume(lim[i] <= n);
+  /* build the real structure in that state: trace, limits, stacks = projection */
+  for (int i = 0; i < 3; i++) if (i < nl) vec_int__push__int_R(&h_m.bound_limits, &lim[i]);
+  for (int i = 0; i < TR + 1; i++) if (i < n) { struct LABoundRef br; br.x = trace[i]; vec_LABoundRef__push__LABoundRef_R(&h_m.bound_trace, &br);
+    int v = (int)h_b[trace[i]].var.x; struct vec_LABoundRef *s = h_b[trace[i]].type == 1 ? &h_ubs[v] : &h_lbs[v]; vec_LABoundRef__push__LABoundRef_R(s, &br); }
+  t_uchar op = nondet_uchar() % 3;
+  if (op == 0) { LRAModel__pushBacktrackPoint(&h_m);
+    __CPROVER_assert(h_m.bound_limits.sz == nl + 1 && h_m.bound_limits.data[nl] == n, "a backtrack point remembers the current length of the trace");
+    check_state(trace, n, "");
+  } else if (op == 1) { __CPROVER_assume(n < TR); struct LABoundRef br; br.x = nondet_uchar() % NB; LRAModel__pushBound(&h_m, br); trace[n] = br.x;
+    __CPROVER_assert(h_m.bound_limits.sz == nl, "asserting a bound leaves the backtrack points alone");
+    check_state(trace, n + 1, "");
+  } else { __CPROVER_assume(nl >= 2); LRAModel__popBacktrackPoint(&h_m);
+    __CPROVER_assert(h_m.bound_limits.sz == nl - 1, "one backtrack point is removed");
+    check_state(trace, (int)lim[nl - 1], "");      /* exactly the bounds asserted before that point survive */
+  }
+  OSMT_REACH("return");
+}
+'''
+def invariant_job():
+    return Job('LRAModel_invariant.R', 'src/tsolvers/lasolver/LRAModel.cc', 'opensmt::LRAModel::popBacktrackPoint', tier='R', header='contracts/C22/lramodel.h', harness=H_INV, enforce=False,
+               extra_roots=('opensmt::LRAModel::pushBound', 'opensmt::LRAModel::pushBacktrackPoint'),
+               pre_includes=('stubs/gmp_types.h', 'stubs/std_types.h', 'contracts/C22/types.h'),
+               stubs=('opensmt::LABoundStore::operator[]', 'vec_LABoundRef__capacity__int', 'vec_int__capacity__int'), opaque=('opensmt::LABoundStore',),
+               default_unwind=9, min_obligations=5, object_bits=12, timeout=1800, weight=10,
+               bounded_note='inductive in the history: ANY state that satisfies the representation invariant with at most 4 live bounds and 3 backtrack points, then one arbitrary operation',
+               proves='each operation preserves the representation invariant (stacks = projections of the trace) and changes the trace as the reference model says: push appends, a backtrack point remembers the length, pop truncates to it')
 def activation_job():
     j = C26.ab_job(extra_defines=('C22_ACTIVATION',))
     j.name = 'assertBound_activation.R'
@@ -49,7 +98,7 @@ def jobs(tier):
                 defines=('C22_STEPS %d' % steps,), unwindset=('harness.1:%d' % (steps + 1),), default_unwind=9, min_obligations=5, object_bits=12, timeout=1800, weight=10,
                 bounded_note='every sequence of at most %d operations' % steps + ' (pushBacktrackPoint / pushBound / popBacktrackPoint) over 2 variables and 6 bounds of arbitrary kind, from the empty model',
                 proves='backtracking restores the bound stacks exactly: retracted bounds leave no trace, the others stay'),
-            activation_job()]
+            activation_job(), invariant_job()]
 def info(tier, results):
     return {'level': 'other', 'trusted_base': ['clang 14 AST', 'osmt2c lowering', 'CBMC 6.11'],
             'assumptions': ['LABoundStore::operator[] returns the bound (variable, kind) for a reference; std::vector<vec<LABoundRef>>::operator[] returns the per-variable stack (stubs of contracts/C22/lramodel.h)', 'vec<T> storage as typed pool blocks'],
